@@ -233,7 +233,14 @@ def run(ctx):
             return stub('Attr', value=v)
 
         def el(**kw):
-            return stub('DomElement', attributes={k: attr(v) for k, v in kw.items()})
+            # xml.dom.minidom.NamedNodeMap: keys() names, values() Attr nodes, items() (name, VALUE) pairs, [name] Attr node
+            nodes = {k: attr(v) for k, v in kw.items()}
+            nnm = stub('NamedNodeMap', keys=lambda it2, a, k: list(nodes), values=lambda it2, a, k: list(nodes.values()),
+                       items=lambda it2, a, k: [(n, kw[n]) for n in nodes], __getitem__=lambda it2, a, k: nodes[a[0]],
+                       get=lambda it2, a, k: nodes.get(a[0], a[1] if len(a) > 1 else None), __len__=lambda it2, a, k: len(nodes),
+                       __contains__=lambda it2, a, k: a[0] in nodes, length=len(nodes))
+            return stub('DomElement', attributes=nnm, getAttribute=lambda it2, a, k: kw.get(a[0], ''),
+                        hasAttribute=lambda it2, a, k: a[0] in kw)
         els = {'path': [el(d='DA', stroke='red', id='p1'), el(d='DB', fill='blue')], 'svg': [el(width='10')]}
 
         def gebtn(it2, a, k):
